@@ -20,7 +20,7 @@ import os
 
 import vlib
 
-CFG = {"nv": 4, "power": [1, 1, 1, 1], "maxVal": 2, "nValid": 1, "maxRound": 1,
+CFG = {"nv": 4, "powers": [[1, 1, 1, 1], [2, 2, 2, 2]], "maxVal": 2, "nValid": 1, "maxRound": 1,
        "corr": [2], "byz": [1, 3, 4], "h0": 1, "propShift": 0}
 SIMS = [("Driver_sim.cfg", 0), ("Driver_sim_np.cfg", 1), ("Driver_sim_r1.cfg", 3)]   # (cfg, PropShift)
 ENGINE = "driver"
